@@ -67,6 +67,9 @@ def writeAt (mem : List Nat) (pos : Nat) (bs : List Nat) : List Nat :=
 
 def readAt (mem : List Nat) (pos size : Nat) : List Nat := (mem.drop pos).take size
 
+/-- the relative index of the typed-array methods: a negative argument counts from the end; the result is clamped to [0, len] -/
+def relIndex (x : Int) (len : Nat) : Nat := if x < 0 then ((len : Int) + x).toNat else min x.toNat len
+
 /-- `memmove(buf, from, to, count)` (array_buffer/utils.rs): the source range is read as a whole, then written -/
 def copyWithinImpl (mem : List Nat) (fromB toB count : Nat) : List Nat := writeAt mem toB (readAt mem fromB count)
 
@@ -121,7 +124,7 @@ inductive Op
   | dvSet (k : Kind) (off : Nat) (le : Bool) (x : Val)
   | detach
   | copy (dst src off : Nat)      -- `views[dst].set(views[src], off)`
-  | copyWithin (v target start : Nat) (fin : Option Nat)   -- `views[v].copyWithin(target, start, fin)` with non-negative arguments
+  | copyWithin (v : Nat) (target start : Int) (fin : Option Int)   -- `views[v].copyWithin(target, start, fin)`, any integers
   deriving Repr
 
 /-- the double bit pattern of an integer of magnitude below 2^53 -/
@@ -241,13 +244,13 @@ def step (s : St) : Op → St × String
     match s.views[vi]? with
     | none => (s, "bad-op")
     | some v =>
-      -- %TypedArray%.prototype.copyWithin, steps 1-17 for non-negative integer arguments (no user code runs in between)
+      -- %TypedArray%.prototype.copyWithin, steps 1-17 for integer arguments (no user code runs in between)
       if viewOOB s.buf v then (s, "TypeError")
       else
         let len := viewLength s.buf v
-        let to := min target len
-        let from_ := min start len
-        let final := match fin with | some e => min e len | none => len
+        let to := relIndex target len
+        let from_ := relIndex start len
+        let final := match fin with | some e => relIndex e len | none => len
         let count := min (final - from_) (len - to)
         if count > 0 then
           let sz := v.kind.size
